@@ -62,6 +62,8 @@ def gen(rng, **force):
         'big_top': 'no', 'sparse': False, 'force': False,
         # stage 5: bystander files with names close to the ones the export deletes / copies / reads; names of the raw-data files
         'bystanders': 'no', 'dat_name': 'default',
+        # stage 6: source files that are links into a store outside the directory; an earlier export into the same target
+        'links': 'no', 'history': 'no',
     }
     o.update(force)
     if o['big_top'] != 'no':
@@ -198,7 +200,206 @@ def gen(rng, **force):
         add_bystanders(inp, rng, o['bystanders'])
     if o['dat_name'] != 'default':
         set_dat_names(inp, rng, o['dat_name'])
+    if o['links'] != 'no':
+        set_links(inp, rng, o['links'], o.get('link_kind'))
+    if o['history'] != 'no':
+        set_history(inp, rng, o['history'], o.get('corrupt'))
     return inp
+
+
+# ---- stage 6: the environment of the source files (links) and the history of the output directory -----------
+# (a) "every pre-existing source file" does not say HOW a file is present in the directory: any regular file of the source
+#     may be a symbolic link (absolute / relative target / a chain of two links) or a hard link to a file kept in a store
+#     outside the directory (curation kept elsewhere, data on a shared disk).  Snapshots follow links, as every reader does.
+# (b) "converting any dataset" does not say that the target has never been exported into: a HISTORY = an earlier
+#     convert() of the same source directory into the same target (with the same or with an EARLIER clustering: another
+#     number of clusters), optionally followed by damage to the exported files (stale / truncated / removed), then the
+#     judged convert(force=True).  What is judged is the final state, against the model of an export into a fresh directory.
+LINK_KINDS = ['abs', 'abs', 'rel', 'chain', 'hard']
+CORRUPT = ['uuids_short', 'uuids_long', 'uuids_junk', 'npy_rows', 'delete_some', 'empty_files']
+
+
+def _source_names(inp):
+    ds = inp['ds']
+    raw = ds.get('raw')
+    names = sorted(set(ds['files']) | set(ds.get('text', {})) | set(ds.get('bin', {})))
+    if inp['params_py']:
+        names.append('params.py')
+    if raw:
+        names += list(inp.get('dat_names') or ['raw%d%s' % (j, raw.get('ext', '.dat')) for j in range(len(raw['sizes']))])
+    return names
+
+
+def set_links(inp, rng, which='any', kind=None):
+    """Choose source files that are present as links.  which: 'clusters' (the two id vectors the export copies and then
+    rewrites in place), 'copied' (files the export copies), 'any' (a random subset of all regular files), 'all'."""
+    names = _source_names(inp)
+    copied = [n for n in names if n in ('params.py', 'cluster_KSLabel.tsv', 'spike_clusters.npy', 'spike_templates.npy', 'channel_positions.npy',
+                                        'channel_probe.npy', 'channel_labels.npy', 'cluster_probes.npy', 'cluster_shanks.npy', 'whitening_mat.npy',
+                                        'drift_depths.um.npy', 'drift.times.npy', 'drift.um.npy') or n.startswith('_phy_spikes_subset.')]
+    if which == 'clusters':
+        pick = [n for n in ('spike_clusters.npy', 'spike_templates.npy') if n in names]
+        if len(pick) == 2 and rng.random() < 0.4:
+            pick = [rng.choice(pick)]
+    elif which == 'copied':
+        pick = rng.sample(copied, rng.randint(1, len(copied))) if copied else []
+    elif which == 'all':
+        pick = list(names)
+    else:
+        pick = rng.sample(names, rng.randint(1, min(len(names), 6)))
+    links = dict(inp.get('links') or {})
+    for n in pick:
+        links[n] = kind or rng.choice(LINK_KINDS)
+    inp['links'] = links
+    inp['opts']['links'] = which
+    inp['opts']['link_names'] = sorted(links)
+    return links
+
+
+def apply_links(inp, d, src):
+    """After the source directory was written: move the chosen files into <d>/store and leave links in their place."""
+    links = inp.get('links') or {}
+    if not links:
+        return
+    store = os.path.join(d, 'store')
+    os.makedirs(store, exist_ok=True)
+    for name, kind in sorted(links.items()):
+        p = os.path.join(src, name)
+        if not os.path.isfile(p) or os.path.islink(p):
+            continue
+        t = os.path.join(store, name)
+        os.rename(p, t)
+        if kind == 'hard':
+            os.link(t, p)
+        elif kind == 'rel':
+            os.symlink(os.path.join('..', 'store', name), p)
+        elif kind == 'chain':
+            os.symlink(t, t + '.lnk')
+            os.symlink(os.path.join('..', 'store', name + '.lnk'), p)
+        else:
+            os.symlink(t, p)
+
+
+def set_history(inp, rng, kind='recurate', corrupt=None):
+    """An earlier export into the same target.  kind 'same': the same dataset was exported before; 'recurate': it was exported
+    with an earlier clustering (other number of clusters / no spike_clusters.npy yet), then re-curated.  Only for fresh
+    targets, the empty label (see notes: rename_with_label re-labels the files of the earlier export) and kind convert."""
+    o = inp['opts']
+    if not inp['target'].startswith('fresh') or inp['label'] or o.get('big_top', 'no') != 'no' or o.get('sparse'):
+        return None
+    files = inp['ds']['files']
+    st = [int(x) for x in files['spike_templates.npy']['data']]
+    cur = files.get('spike_clusters.npy')
+    h = {'kind': kind, 'pre_clusters': 'keep'}
+    if kind == 'recurate':
+        curd = [int(x) for x in cur['data']] if cur is not None else None
+        opts = []
+        if curd is not None and curd != st:
+            opts.append(None)                                   # exported before anything was curated
+        for _ in range(3):
+            sc, _ = D8.history(rng, st, rng.randint(1, 3))
+            if sc != curd and sc != st:
+                opts.append(sc)
+        # the new id max+1 that a merge creates, undone (or not yet done) in the other state
+        base = list(curd if curd is not None else st)
+        top = max(base)
+        merged = [top + 1 if c in (base[0], base[-1]) else c for c in base]
+        if merged != curd:
+            opts.append(merged)
+        pre = rng.choice(opts) if opts else None
+        if pre is None:
+            h['pre_clusters'] = None
+        else:
+            shape = cur['shape'] if cur is not None else ([len(st), 1] if o.get('vec2d') else [len(st)])
+            h['pre_clusters'] = {'dtype': cur['dtype'] if cur is not None else o.get('clu_dtype', 'int32'), 'shape': list(shape), 'data': pre}
+    if corrupt is None:
+        corrupt = rng.sample(CORRUPT, rng.choice([0, 0, 1, 1, 2]))
+    h['corrupt'] = list(corrupt)
+    h['seed'] = rng.randrange(10 ** 6)
+    inp['history'] = h
+    inp['force'] = True
+    o['force'] = True
+    o['history'] = kind
+    o['corrupt'] = '+'.join(sorted(corrupt)) or 'none'
+    return h
+
+
+def run_history(inp, src, kw, target, out):
+    """The earlier part of the history, performed with phylib itself: export of the (earlier state of the) source directory
+    into `target`, damage to the exported files, then the source directory is brought to its present state (the clustering
+    re-saved; files the first export added to the source - the spike-waveform subset - removed, so that the judged
+    conversion starts from a directory of the modelled regime; temp_wh.dat stays deleted).  Returns '' or a failure text."""
+    import random
+    import numpy as np
+    from phylib.io.model import TemplateModel
+    from phylib.io.alf import EphysAlfCreator
+    h = inp.get('history')
+    if not h:
+        return ''
+    rng = random.Random(h['seed'])
+    scp = os.path.join(src, 'spike_clusters.npy')
+    before = set(os.listdir(src))
+    final = None
+    if os.path.exists(scp):
+        with open(scp, 'rb') as f:
+            final = f.read()
+    pre = h['pre_clusters']
+    if pre != 'keep':
+        if os.path.exists(scp):
+            os.remove(scp)
+        if pre is not None:
+            np.save(scp, D.spec_to_np(pre))
+    m0 = m1 = None
+    try:
+        m0 = TemplateModel(**kw)
+        m1 = EphysAlfCreator(m0).convert(target, force=False, label=inp['label'], ampfactor=inp['factor'])
+    except Exception as e:  # noqa
+        return 'earlier export raised %s: %s' % (type(e).__name__, str(e)[:120])
+    finally:
+        for x in (m1, m0):
+            try:
+                if x is not None:
+                    x.close()
+            except Exception:  # noqa
+                pass
+    # the source directory as it is today
+    if pre != 'keep' or final is None:
+        if os.path.exists(scp):
+            os.remove(scp)
+        if final is not None:
+            with open(scp, 'wb') as f:
+                f.write(final)
+    for name in sorted(set(os.listdir(src)) - before):
+        os.remove(os.path.join(src, name))
+    # damage to the earlier export
+    # only files the export itself writes (object files, copies): the read-back of the first export leaves loader caches in the
+    # output directory as well (whitening_mat_inv.npy ...), which no export rewrites - damaging those is not part of this axis
+    names = sorted(n for n in os.listdir(out) if n.startswith(('spikes.', 'clusters.', 'templates.', 'channels.', '_phy_spikes_subset.',
+                                                               '_kilosort_whitening.', 'drift', 'params.py', 'cluster_KSLabel.')))
+    npys = [n for n in names if n.endswith('.npy')]
+    for c in h['corrupt']:
+        uu = os.path.join(out, 'clusters.uuids.csv')
+        if c == 'uuids_short' and os.path.exists(uu):
+            with open(uu, 'w') as f:
+                f.write('uuids\nstale-0')
+        elif c == 'uuids_long' and os.path.exists(uu):
+            with open(uu, 'a') as f:
+                f.write(''.join('\nstale-%d' % i for i in range(rng.randint(1, 40))))
+        elif c == 'uuids_junk' and os.path.exists(uu):
+            with open(uu, 'w') as f:
+                f.write(rng.choice(['', 'uuids', 'x,y\n1,2\n', 'uuids\na\na\na']))
+        elif c == 'npy_rows':
+            for n in rng.sample(npys, min(len(npys), rng.randint(1, 6))):
+                np.save(os.path.join(out, n), np.zeros(rng.choice([(0,), (1,), (3, 2), (70000,)]), dtype=rng.choice(['float64', 'int32', 'uint16'])))
+        elif c == 'delete_some':
+            for n in rng.sample(names, min(len(names), rng.randint(1, 6))):
+                if os.path.exists(os.path.join(out, n)):
+                    os.remove(os.path.join(out, n))
+        elif c == 'empty_files':
+            for n in rng.sample(names, min(len(names), rng.randint(1, 4))):
+                if os.path.exists(os.path.join(out, n)):
+                    open(os.path.join(out, n), 'w').close()
+    return ''
 
 
 # ---- stage 5: bystander files / raw-data file names --------------------------------------------------------
